@@ -131,6 +131,18 @@ def build_case(case):
         if placement == "main":
             return pt.Seq(*alloc_and_check(), pt.Int(1)), n
 
+        if placement == "abisub":
+            # the same inside an ABI-returning subroutine: its output value occupies a frame cell of its own
+            def inner_abi(*, output):
+                return pt.Seq(*alloc_and_check(), output.set(pt.Int(4321)))
+            inner_abi.__name__ = "abi_locals_ret"
+            inner_abi.__annotations__ = {"output": abi.Uint64, "return": pt.Expr}
+            asub = pt.ABIReturnSubroutine(inner_abi)
+            marker = pt.ScratchVar(pt.TealType.uint64)
+            res = abi.Uint64()
+            return pt.Seq(marker.store(pt.Int(77)), res.set(asub()), pt.Assert(marker.load() == pt.Int(77)),
+                          pt.Assert(res.get() == pt.Int(4321)), pt.Int(1)), n + 3
+
         def inner():
             return pt.Seq(*alloc_and_check())
         inner.__name__ = "abi_locals"
@@ -174,9 +186,18 @@ def check_case(case, out):
             cells = -1
     fp_locals = case["kind"] == "abi" and case["placement"] != "main" and cfg.uses_frame_pointers()
     scratch_cells = cells
-    if fp_locals:
+    if fp_locals and case["placement"] == "abisub":
+        # frame: the output value + up to 127 locals; scratch: the overflow, main's marker and result holder
+        scratch_cells = max(0, case["n"] - 127) + 2
+    elif fp_locals:
         scratch_cells = max(0, case["n"] - 128) + 1
     too_many = scratch_cells > 256
+    if case["placement"] == "abisub" and not fp_locals and scratch_cells == 257 and st == "ok":
+        # the slot optimiser may cancel the callee's "store output; load output" pair: one cell fewer is legitimate
+        p0 = asm.assemble(text)
+        if len(set(i.args[0] for i in p0.instrs if i.op in ("store", "load") and i.args)) <= 256:
+            too_many = False
+            scratch_cells = 256
     oc["%s:%s" % (st, "over" if too_many else ("dup" if dup else "fits"))] = oc.get("%s:%s" % (st, "over" if too_many else ("dup" if dup else "fits")), 0) + 1
     why = None
     if st == "crash":
@@ -241,7 +262,7 @@ def run(tier):
                         continue  # nothing to split
                     for cfg in (cfgs if tier == "thorough" or req in ("none", "low_block") else cfgs[:1] + cfgs[2:3]):
                         items.append({"n": n, "req": req, "placement": placement, "kind": kind, "cfg": cfg.to_json()})
-        for placement in ("main", "sub"):
+        for placement in ("main", "sub", "abisub"):
             for cfg in cfgs:
                 items.append({"n": n, "req": "none", "placement": placement, "kind": "abi", "cfg": cfg.to_json()})
         if n <= 130:
